@@ -4,7 +4,10 @@
 //! Input lines are either `{"dataset": name, "tables": [...]}` definitions or items (see run.rs).
 //! Every item runs on its own thread and tokio runtime under a progress watchdog: if the global progress
 //! counter (source polls, udf calls, pool calls, spill writes, root batches) does not move for `hang-secs`
-//! while the item is unfinished, the item is reported as `outcome: "hang"` and its thread is abandoned.
+//! while the item is unfinished, the item is reported as `outcome: "hang"`; independently every item has a
+//! hard wall-clock cap (`--item-cap-secs`, machinery bound, reported as `outcome: "timeout"`, never a verdict).
+//! After a hang/timeout the stuck thread cannot be killed, so the process writes the result and exits with
+//! code 3; the driver restarts a fresh process for the remaining items (no item can stall a chunk).
 mod infra;
 mod run;
 
@@ -24,6 +27,7 @@ fn main() {
     let inp = util::arg("--in").expect("--in");
     let outp = util::arg("--out").expect("--out");
     let hang = Duration::from_secs(util::arg("--hang-secs").and_then(|x| x.parse().ok()).unwrap_or(60));
+    let cap = Duration::from_secs(util::arg("--item-cap-secs").and_then(|x| x.parse().ok()).unwrap_or(180));
     // injected panics are data: keep stderr quiet
     if std::env::var("VLIFE_PANIC_TRACE").is_err() {
         std::panic::set_hook(Box::new(|_| {}));
@@ -66,11 +70,17 @@ fn main() {
             .unwrap();
         let mut last = infra::PROGRESS.load(AO::Relaxed);
         let mut last_t = Instant::now();
+        let started = Instant::now();
         let res: Value = loop {
             match rx.recv_timeout(Duration::from_millis(200)) {
                 Ok(v) => break v,
                 Err(mpsc::RecvTimeoutError::Timeout) => {
                     let p = infra::PROGRESS.load(AO::Relaxed);
+                    if started.elapsed() > cap {
+                        let fired = infra::current().map(|c| c.fired.load(AO::SeqCst)).unwrap_or(false);
+                        break json!({"id": item["id"].clone(), "outcome": "timeout", "fired": fired, "ran_s": started.elapsed().as_secs(),
+                                     "progress_moving": p != last || last_t.elapsed() < Duration::from_secs(2)});
+                    }
                     if p != last {
                         last = p;
                         last_t = Instant::now();
@@ -90,6 +100,12 @@ fn main() {
         f.write_all(b"\n").unwrap();
         f.flush().unwrap();
         n += 1;
+        if res["outcome"] == "hang" || res["outcome"] == "timeout" {
+            // the abandoned thread may still spin (and move the progress counter): continue in a fresh process
+            util::summary(json!({"items": n, "hangs": hangs, "panics": panics, "stopped_after": res["id"].clone(), "wall_s": t0.elapsed().as_secs_f64()}));
+            drop(f);
+            std::process::exit(3);
+        }
     }
     util::summary(json!({"items": n, "hangs": hangs, "panics": panics, "wall_s": t0.elapsed().as_secs_f64()}));
     // abandoned (hung) threads must not keep the process alive
